@@ -92,6 +92,22 @@ def binary(ctx, P, a, b, k):
             ctx.check('commutes', ok, r2 if is_exc(r2) or is_exc(r) else list(r2.ival), want, op=op, ring=k, **det)
     same(ctx, 'concat', call(lambda: A // Bv), a + b, k, **det)
     ctx.check('operand-unchanged', list(A.ival) == a and list(Bv.ival) == b and A.size == k and Bv.size == k, (list(A.ival), list(Bv.ival)), (a, b))
+    # augmented forms: the same values, and whoever still holds the old left operand sees it unchanged
+    import operator as OP
+    for op, f in (('+', OP.iadd), ('-', OP.isub), ('^', OP.ixor), ('&', OP.iand), ('|', OP.ior)):
+        X = mk(P, a, k); keep = X
+        r = call(f, X, Bv)
+        same(ctx, 'op:' + op, r, m_op(op, a, b, k), k, form=op + '=', **det)
+        ctx.check('operand-unchanged', list(keep.ival or []) == a and list(Bv.ival or []) == b, (list(keep.ival or []), list(Bv.ival or [])), (a, b), form=op + '=', alias_of_left_operand=True)
+    # two vectors built from one list the caller still owns: independent of each other and of the list
+    if a:
+        L = list(a); V1 = P(L, k); V2 = P(L, k)
+        r = call(V1.__setitem__, 0, red(a[0] + 1, k) if k else a[0] + 1)
+        ctx.check('operand-unchanged', list(V2.ival) == a and L == a, (list(V2.ival), L), (a, a), built_from='the same list; the other vector was assigned to')
+        L[0] = red(L[0] + 1, k) if k else L[0] + 1; L.append(1)
+        ctx.check('operand-unchanged', list(V2.ival) == a, list(V2.ival), a, built_from='a list the caller changed afterwards')
+        r = call(lambda: V2 ^ Bv)
+        same(ctx, 'op:^', r, m_op('^', a, b, k), k, built_from='a list the caller changed afterwards', **det)
 
 def unary(ctx, P, a, k, rng, full=True):
     from crysp.bits import pack
@@ -115,6 +131,19 @@ def unary(ctx, P, a, k, rng, full=True):
         if i >= 0:
             e = call(A.e, i)
             ctx.eq('e(i)', int(e) if not is_exc(e) else e, a[i] if i < n else 0, i=i, ring=k, **det)
+    # what a read hands out belongs to the caller: changing it changes no vector (this one, or another one with equal coefficients)
+    if k and n:
+        twin = mk(P, a, k)
+        for x in [call(A.e, 0), call(A.e, n - 1)] + list(A)[:2]:
+            if not is_exc(x) and hasattr(x, 'ival'):
+                x.ival = x.ival ^ 1; x.size = x.size + 3
+        for g in (call(lambda: A[0]), call(lambda: A[0:n]), call(lambda: A[[0]])):
+            if not is_exc(g) and g is not None and g.ival:
+                g.ival[0] = red(g.ival[0] + 1, k)
+        same(ctx, 'getitem', call(lambda: A[0:n]), a, k, idx='[0:n] after the caller changed elements it had read', **det)
+        same(ctx, 'getitem', call(lambda: twin[0:n]), a, k, idx='[0:n] of an equal vector after the caller changed elements read from another', **det)
+        ctx.eq('e(i)', [int(A.e(i)) for i in range(n)], a, after='the caller changed elements it had read', ring=k, **det)
+        same(ctx, 'op:^', call(lambda: A ^ twin), [0] * n, k, after='the caller changed elements it had read', **det)
     # indexing
     for i in range(-n, n):
         same(ctx, 'getitem', call(lambda: A[i]), [a[i]], k, idx=i, **det)
